@@ -220,6 +220,9 @@ func (pm *profileMerger) sampleKey(sample *Sample) sampleKey {
 	}
 	putNumber(0) // Delimiter
 
+	// Each label section is preceded by its number of keys, so that the
+	// string and numeric sections cannot run into each other.
+	putNumber(uint64(len(sample.Label)))
 	for _, l := range sortedKeys1(sample.Label) {
 		putDelimitedString(l)
 		values := sample.Label[l]
@@ -229,6 +232,7 @@ func (pm *profileMerger) sampleKey(sample *Sample) sampleKey {
 		}
 	}
 
+	putNumber(uint64(len(sample.NumLabel)))
 	for _, l := range sortedKeys2(sample.NumLabel) {
 		putDelimitedString(l)
 		values := sample.NumLabel[l]
